@@ -311,6 +311,7 @@ Definition builtin (f : string) (args : list val) : option val :=
   | "substring", [VStr a; VInt st; VInt ln] =>
     if (Z.leb 1 st && Z.leb 0 ln)%bool then Some (VStr (String.substring (Z.to_nat (st - 1)) (Z.to_nat ln) a)) else None
   | "nullif", [a; b] => match val_eq a b with Some true => Some VNull | Some false => Some a | None => None end
+  | "cast:text", [VStr a] => Some (VStr a)
   | "cast:float", [a] => match numQ a with Some q => Some (VNum q) | None => None end
   | "cast:real", [a] => match numQ a with Some q => Some (VNum q) | None => None end
   | "cast:double", [a] => match numQ a with Some q => Some (VNum q) | None => None end
